@@ -68,7 +68,9 @@ class IClass:
         self.fields: list[tuple[str, ast.AST | None]] = []
         self.methods: dict[str, Func] = {}
         self.nested: dict[str, IClass] = {}
-        self.is_dataclass = any("dataclass" in norm(d) for d in node.decorator_list)
+        # typing.NamedTuple classes: fields by position or keyword like a dataclass, and the instance is a sequence of its fields
+        self.is_namedtuple = any("NamedTuple" in norm(b) for b in getattr(node, "bases", []))
+        self.is_dataclass = any("dataclass" in norm(d) for d in node.decorator_list) or self.is_namedtuple
         self.dc_init = not any("init=False" in norm(d).replace(" ", "") for d in node.decorator_list)
         self.bases: list[IClass] = []
         # class-level state: `name = value` statements of the class body (evaluated on first use), values assigned to the class
@@ -445,6 +447,8 @@ class Interp(Folder):
         if isinstance(v, Obj):
             if "__iter__" in v.cls.methods:
                 return list(self.iterate(self.call(v.cls.methods["__iter__"].bind(v), [], {}, None, None)))
+            if getattr(v.cls, "is_namedtuple", False):
+                return [v.attrs[n] for n, _ in v.cls.fields]
             raise PyRaise("TypeError", f"'{v.cls.name}' object is not iterable")
         if isinstance(v, (set, frozenset)):
             return sorted(v, key=repr, reverse=self.set_order == "desc")
@@ -467,7 +471,7 @@ class Interp(Folder):
                 return v
         if e.id == "isinstance":
             return "isinstance"
-        if e.id in ("next", "iter", "repr", "hash", "print", "callable", "getattr", "hasattr", "id"):
+        if e.id in ("next", "iter", "repr", "hash", "print", "callable", "getattr", "hasattr", "id", "setattr"):
             return e.id
         if e.id in self.BUILTINS:
             return self.BUILTINS[e.id]
@@ -603,6 +607,9 @@ class Interp(Folder):
             return Term("getitem", (v, k))
         if isinstance(v, Obj) and "__getitem__" in v.cls.methods:
             return self.call(v.cls.methods["__getitem__"].bind(v), [k], {}, e, env)
+        if isinstance(v, Obj) and getattr(v.cls, "is_namedtuple", False) and isinstance(k, int):
+            vals = [v.attrs[n] for n, _ in v.cls.fields]
+            return _py(lambda: vals[k])
         return _py(lambda: v[k])
 
     def _type_eq(self, a, b):
@@ -802,6 +809,12 @@ class Interp(Folder):
             return isinstance(args[0], (Func, Native, Partial, IClass, TypeCtor, NoOp, ExcCtor, SymNS)) or callable(args[0])
         if f == "id":
             return id(args[0])
+        if f == "setattr":
+            if not isinstance(args[1], str):
+                self.err(node, "setattr with a computed name")
+            tgt_ = ast.Attribute(value=ast.Name(id="__subject__", ctx=ast.Load()), attr=args[1], ctx=ast.Store())
+            self.bind(tgt_, args[2], {"__subject__": args[0]})
+            return None
         if f in ("getattr", "hasattr"):
             if not isinstance(args[1], str):
                 self.err(node, "getattr with a computed name")
@@ -1046,8 +1059,110 @@ class Interp(Folder):
             return
         super().bind(target, value, env)
 
+    # ---- structural pattern matching ------------------------------------------------------------------------------------
+    def match_pattern(self, pat, v, env, node):
+        """bindings (dict) if the value matches the pattern, else None - the semantics of PEP 634 for the pattern kinds the
+        library's style uses (class patterns with keyword sub-patterns, sequences with a star, or / as / value / wildcard)"""
+        if isinstance(pat, ast.MatchValue):
+            return {} if _py(lambda: v == self.ev(pat.value, env)) else None
+        if isinstance(pat, ast.MatchSingleton):
+            return {} if v is pat.value else None
+        if isinstance(pat, ast.MatchAs):
+            if pat.pattern is None:
+                return {pat.name: v} if pat.name else {}
+            b = self.match_pattern(pat.pattern, v, env, node)
+            if b is None:
+                return None
+            if pat.name:
+                b[pat.name] = v
+            return b
+        if isinstance(pat, ast.MatchOr):
+            for alt in pat.patterns:
+                b = self.match_pattern(alt, v, env, node)
+                if b is not None:
+                    return b
+            return None
+        if isinstance(pat, ast.MatchClass):
+            cls_ = self.ev(pat.cls, env)
+            if cls_ in (str, int, float, bool, list, tuple, dict, set):
+                if not (isinstance(v, cls_) and not isinstance(v, (DT, Obj))):
+                    return None
+                if pat.patterns:  # `str(x)`: the subject itself
+                    return self.match_pattern(pat.patterns[0], v, env, node) if len(pat.patterns) == 1 else None
+            elif not self._isinstance(v, cls_, node):
+                return None
+            if pat.patterns and cls_ not in (str, int, float, bool, list, tuple, dict, set):
+                self.err(node, "positional class pattern (needs __match_args__)")
+            out = {}
+            for attr, sub in zip(pat.kwd_attrs, pat.kwd_patterns):
+                try:
+                    av = self.call("getattr", [v, attr], {}, node, env)
+                except PyRaise as p_:
+                    if p_.name == "AttributeError":
+                        return None
+                    raise
+                b = self.match_pattern(sub, av, env, node)
+                if b is None:
+                    return None
+                out.update(b)
+            return out
+        if isinstance(pat, ast.MatchSequence):
+            if isinstance(v, (str, bytes, dict, set, DT)) or not isinstance(v, (list, tuple)):
+                return None
+            vals = list(v)
+            stars = [i for i, p_ in enumerate(pat.patterns) if isinstance(p_, ast.MatchStar)]
+            if not stars:
+                if len(vals) != len(pat.patterns):
+                    return None
+                pairs, rest = list(zip(pat.patterns, vals)), None
+            else:
+                i = stars[0]
+                after = len(pat.patterns) - i - 1
+                if len(vals) < len(pat.patterns) - 1:
+                    return None
+                pairs = list(zip(pat.patterns[:i], vals[:i])) + list(zip(pat.patterns[i + 1:], vals[len(vals) - after:] if after else []))
+                rest = (pat.patterns[i].name, list(vals[i:len(vals) - after]))
+            out = {}
+            for sp, sv in pairs:
+                b = self.match_pattern(sp, sv, env, node)
+                if b is None:
+                    return None
+                out.update(b)
+            if rest is not None and rest[0]:
+                out[rest[0]] = rest[1]
+            return out
+        if isinstance(pat, ast.MatchMapping):
+            if not isinstance(v, dict):
+                return None
+            out = {}
+            for k_, sp in zip(pat.keys, pat.patterns):
+                kv = self.ev(k_, env)
+                if kv not in v:
+                    return None
+                b = self.match_pattern(sp, v[kv], env, node)
+                if b is None:
+                    return None
+                out.update(b)
+            if pat.rest:
+                out[pat.rest] = {k: x for k, x in v.items() if k not in [self.ev(k_, env) for k_ in pat.keys]}
+            return out
+        self.err(node, f"unsupported pattern {type(pat).__name__}")
+
     def exec_stmt(self, st, env):
         self.steps += 1
+        if isinstance(st, ast.Match):
+            subject = self.ev(st.subject, env)
+            for case in st.cases:
+                b = self.match_pattern(case.pattern, subject, env, st)
+                if b is None:
+                    continue
+                for k_, v_ in b.items():
+                    env[k_] = v_
+                if case.guard is not None and not self.ev(case.guard, env):
+                    continue
+                self.exec_block(case.body, env)
+                return
+            return
         if isinstance(st, ast.Return):
             raise _Ret(self.ev(st.value, env) if st.value is not None else None)
         if isinstance(st, ast.Raise):
